@@ -7,6 +7,7 @@ Decided (E3):
   FWD    the four permute() siblings (dense, sparse, Kruskal, Tucker) all select by the order argument itself;
          an argsort(order) in one of them is the forward/inverse slip
   ORDER  order-significant arguments (permutation order, the old_modes of sparse reshape) are used as given, never sorted
+  RSHAPE sptensor.squeeze / reshape / permute: every constructing return (the nothing-stored shortcut included) uses the transformed shape
   PS-tt  ttensor.permute applies the same order to the core and to the factor list; ktensor.permute leaves the
          weights in place
 Not decided: values; round-trip identity beyond these facts; agreement across representations (needs C01).
@@ -29,7 +30,7 @@ PERMUTES = ["tensor.tensor.permute", "sptensor.sptensor.permute", "ktensor.ktens
 def check(prog: Program, res: Result, tier: str) -> None:
     res.explanation = __doc__.split("\n\n", 1)[1]
     res.assumptions = ["np.transpose(x, p) makes result mode k the operand's mode p[k]; tt_sub2ind/tt_ind2sub contract (C17)"]
-    res.floors = {"EO-1": 4, "PS": 3, "FWD": 4, "PS-tt": 2, "ORDER": 5}
+    res.floors = {"EO-1": 4, "PS": 3, "FWD": 4, "PS-tt": 2, "ORDER": 5, "RSHAPE": 2}
     for f in FUNCS:
         prog.func(f)
     sel = lambda fi: fi.short in FUNCS
@@ -114,6 +115,28 @@ def check(prog: Program, res: Result, tier: str) -> None:
                 "for a non-involutive order the factors no longer belong to the modes of the core")
     else:
         res.undecided("PS-tt", fi.short, desc, prog.loc(fi), f"core by {core_by[:1]}, factors by {fac_by[:1]}")
+    # sparse shape-changing operations: the empty-tensor shortcut builds the result with the NEW shape, like the main path
+    for short in ("sptensor.sptensor.squeeze", "sptensor.sptensor.reshape", "sptensor.sptensor.permute"):
+        fs = prog.func(short)
+        me = fs.params()[0]
+        shapes = []
+        for r in ast.walk(fs.node):
+            if isinstance(r, ast.Return) and isinstance(r.value, ast.Call) and (dotted(r.value.func) or "").split(".")[-1] == "sptensor" \
+                    and len(r.value.args) >= 3:
+                shapes.append((fs.rtext(r.value.args[2]).replace(" ", ""), r))
+        desc = f"every path of {fs.name} that builds a new sparse tensor gives it the transformed shape (also when nothing is stored)"
+        own = [r for t, r in shapes if t in (f"{me}.shape", f"tuple({me}.shape)")]
+        other = [t for t, r in shapes if t not in (f"{me}.shape", f"tuple({me}.shape)")]
+        if not shapes:
+            res.undecided("RSHAPE", short, desc, prog.loc(fs), "no constructing return")
+        elif len(shapes) == 1 and not own:
+            res.ok("RSHAPE", short, desc, prog.loc(fs, shapes[0][1]), "one constructing return, with the transformed shape")
+        elif own and other:
+            res.bad("RSHAPE", short, desc, prog.loc(fs, own[0]),
+                    f"`{ast.unparse(own[0])[:70]}` keeps the receiver's own shape while another path returns shape `{other[0][:50]}`: "
+                    "for a tensor without stored entries the operation does not change the shape")
+        else:
+            res.ok("RSHAPE", short, desc, prog.loc(fs, shapes[0][1]), f"{len(shapes)} constructing returns")
     # ktensor.permute: weights unpermuted
     fi = prog.func("ktensor.ktensor.permute")
     desc = "weights are passed through unchanged (only the modes are relabelled)"
